@@ -37,7 +37,10 @@
              '(repair_conservative)',
              'XML tokenisation (encoding/xml) and the construction of both trees are outside the theorems '
              '(C08); every document is checked node by node for equal shape of the two trees, every Coq case '
-             'checks tree_eqb (to_idr DOM) (observed IDR tree)'],
+             'checks tree_eqb (to_idr DOM) (observed IDR tree); one document in five is in a declared '
+             'single-byte encoding (ISO-8859-1, latin1, us-ascii, windows-1252/1254, iso-8859-9/-15) with '
+             'bytes 0x80..0xFF in text and attribute values: both parsers decode through '
+             'charset.NewReaderLabel and must produce the same characters'],
  'assumptions': ['dom_wfb: only element nodes carry attributes (XML)',
                  'scope: documents without comment / processing-instruction nodes (the IDR does not '
                  'represent them)',
